@@ -52,6 +52,17 @@ def draw(rng, *, max_states=4, max_controls=3, max_cal=2, max_sensors=3, max_rea
     nu = rng.randint(0, max_controls)
     nc = rng.randint(0, max_cal)
     names = rng.sample(NAMES, ns + nu + nc)
+    if rng.random() < 0.2:
+        # two symbols of the SAME group that differ only by case (a non-injective, e.g. case-folding, sort key ties them)
+        pair = rng.choice([("x", "X"), ("m0", "M0"), ("B", "b"), ("a", "A"), ("kk", "Kk")])
+        grp = rng.choice([g for g in ((0, ns), (ns, ns + nu), (ns + nu, ns + nu + nc)) if g[1] - g[0] >= 2] or [None])
+        if grp is not None:
+            rest = [n for n in names if n not in pair and n.lower() not in (pair[0].lower(),)]
+            pool = [n for n in NAMES if n not in pair and n not in rest]
+            while len(rest) < len(names) - 2:
+                rest.append(pool.pop())
+            names = rest[: grp[0]] + list(pair) + rest[grp[0]:]
+            names = names[: ns + nu + nc]
     S = [Symbol(n) for n in names[:ns]]
     U = [Symbol(n) for n in names[ns : ns + nu]]
     C = [Symbol(n) for n in names[ns + nu :]]
